@@ -20,6 +20,12 @@ func genInputCase(t *rapid.T) *Case {
 	if rapid.Bool().Draw(t, "has_m") {
 		doc["m"] = int64(rapid.IntRange(0, 5).Draw(t, "m"))
 	}
+	if rapid.Bool().Draw(t, "all_defaults_given") {
+		// every top-level field that has a default is given explicitly: nothing is added at the top
+		// level, normalisation only matters inside the values
+		doc["m"] = int64(rapid.IntRange(0, 5).Draw(t, "m2"))
+		doc["zero"] = int64(0)
+	}
 	hasNested := rapid.Bool().Draw(t, "has_nested")
 	if hasNested {
 		n := map[string]any{"x": int64(rapid.IntRange(0, 9).Draw(t, "nx"))}
